@@ -55,6 +55,15 @@ CHECKS = {
                      "real code and their bytes checked for Origin-Host/Realm, Session-Id and Proxy-Info.",
                 ref="4 C20", note=BASE_NOTE + "; Session-Id/Proxy-Info copying is judged for commands whose request "
                 "grammar has them (typed) and for all untyped commands."),
+    "C05": dict(cat="exploration", tech="real PeerConnection reader thread fed with enumerated chunkings; delivered "
+                "sequence vs reference framer; progress monitor (consecutive header parses without buffer change)",
+                text="Every 1-cut and 2-cut position of short streams is enumerated (exhaustive), long streams get random "
+                     "k-cuts, byte-at-a-time and 2048-byte reads, in step and burst feeding; bad frames (undecodable "
+                     "body, header length 0, 1..19, real-4, real+4, real+next, 2^24-1) are inserted at every index with "
+                     "every cut position around a skipped frame. The oracle demands exact delivery for well-formed "
+                     "streams, prefix exactness + progress (resync / wait / close) for wrong lengths.",
+                ref="4 C05", note=NODE_NOTE + "; only the queue shim is engaged here (no node), poll time-outs "
+                "scaled 5 s -> 4 ms."),
 }
 
 NOT_YET = "check not built yet in this round (planned in DESIGN.md section 4); no claim is made"
